@@ -374,3 +374,120 @@ Definition c16_multi_gen (hw hz : bool) (obs : list mobs) (evs evs_solo : list e
          forallb mo_same obs;
          forallb (fun o => (op_total (mo_ops o) =? 0) || (Bool.eqb (mo_w o) hw && Bool.eqb (mo_z o) hz)) obs
            && (length pairs =? if hw || hz then total else 0) ].
+
+(* ---------- observers: code that runs on behalf of logging / progress / diagnostics ---------- *)
+(* The ambient state of the process (log levels and handlers, progress indicators, warnings
+   filters, environment variables, interpreter switches) decides whether OBSERVERS run inside the
+   operations of a generator: code that shows something to the user.  The property says the records
+   are a function of (parameters, seed) only, so a pass must not depend on which observers run.
+   What an observer may do to the generator it looks at: *)
+Inductive obs :=
+| OSilent                   (* builds its message from sizes / names / the repr of the arguments only *)
+| OPeek (k : nat)           (* shows k records drawn from a COPY (or saves and restores the PRNG state) *)
+| OPreview (k : nat)        (* gen(k) on the live generator *)
+| OProbe (k : nat)          (* reader.get_probe(k) : reseed(); gen(k) *)
+| ORewind.                  (* gen.reseed() *)
+
+(* the records an observer consumes from the live stream *)
+Definition advance (o : obs) : nat :=
+  match o with OPreview k => k | OProbe k => k | _ => 0 end.
+(* what the logging subclass of the harness sees of an observer (a copy is another object) *)
+Definition obs_events (o : obs) : list event :=
+  match o with
+  | OSilent => [] | OPeek _ => []
+  | OPreview k => [ECall k]
+  | OProbe k => [EReseed; ECall k]
+  | ORewind => [EReseed]
+  end.
+(* observers that leave every state as it is *)
+Definition transparent (o : obs) : bool :=
+  match o with OSilent => true | OPeek _ => true | _ => false end.
+
+Section Observers.
+  Context {seed sample : Type}.
+  Context (stream : seed -> nat -> sample).
+  Context (width : nat).
+
+  (* state left behind, and what is shown *)
+  Definition observe (o : obs) (st : @state seed) : @state seed * list (@chunk sample) :=
+    match o with
+    | OSilent => (st, [])
+    | OPeek k => (st, [snd (draw stream width st k)])
+    | OPreview k => let '(st1, c) := draw stream width st k in (st1, [c])
+    | OProbe k => let '(st1, c) := draw stream width (reseed st) k in (st1, [c])
+    | ORewind => (reseed st, [])
+    end.
+  Definition observe_all (os : list obs) (st : @state seed) : @state seed :=
+    fold_left (fun s o => fst (observe o s)) os st.
+
+  (* the hooks of one pass: observers between the re-seed and the first chunk, and after every chunk *)
+  Record hooks := mkHooks { h_start : list obs; h_each : list obs }.
+
+  Fixpoint draws_obs (each : list obs) (st : @state seed) (sizes : list nat) : @state seed * list (@chunk sample) :=
+    match sizes with
+    | [] => (st, [])
+    | k :: r => let '(st1, c) := draw stream width st k in
+                let '(st2, cs) := draws_obs each (observe_all each st1) r in (st2, c :: cs)
+    end.
+
+  (* one pass of a reader (for chunk in reader / Catalog.from_random); [on] = the ambient state
+     switches the observers on *)
+  Definition pass_obs (on : bool) (h : hooks) (n cs : nat) (st : @state seed) : @state seed * list (@chunk sample) :=
+    if on then draws_obs (h_each h) (observe_all (h_start h) (reseed st)) (random_sizes n cs)
+    else draws stream width (reseed st) (random_sizes n cs).
+
+  (* the same with an observer that is an arbitrary function on the generator state *)
+  Definition pass_with (f : @state seed -> @state seed) (n cs : nat) (st : @state seed) : list (@chunk sample) :=
+    snd (draws stream width (f (reseed st)) (random_sizes n cs)).
+End Observers.
+
+(* the event log of a pass with observers at its start *)
+Definition start_events (os : list obs) : list event := concat (map obs_events os).
+Definition pass_obs_events (os : list obs) (n cs : nat) : list event :=
+  EReseed :: start_events os ++ map ECall (random_sizes n cs).
+
+(* ---------- correspondence checker: one route under one ambient setting ---------- *)
+(* the route by which the records are obtained from a generator with the seed in force *)
+Inductive aroute :=
+| APass (n cs : nat)        (* chunks of a RandomReader / the patches of Catalog.from_random *)
+| ACalls (ks : list nat)    (* direct calls gen(k) / generate_dataframe(k) on a fresh generator *)
+| AProbe (k : nat).         (* reader.get_probe(k) *)
+Definition aroute_sizes (r : aroute) : list nat :=
+  match r with APass n cs => random_sizes n cs | ACalls ks => ks | AProbe k => [k] end.
+Definition aroute_total (r : aroute) : nat := nsum (aroute_sizes r).
+
+Definition qpair_eqb (a b : Q * Q) : bool := Qeqb (fst a) (fst b) && Qeqb (snd a) (snd b).
+
+(* evs : the event log of the generator object under this setting; ras / decs / pairs : the records;
+   ref_* : the reference stream of the model (the PRNG of the seed, position 0, call sizes of the
+   route), computed without the library; bits_same : the same comparison on the bit patterns;
+   same_neutral : the records equal, bit for bit, those of the same route under the neutral setting.
+   flags: 0 model agrees: the calls after the last reseed are those of the route (whatever observers
+            ran before that reseed), and the reference stream itself has the size, lies in the
+            window and consists of rows
+          1 size   2 window   3 joint draw
+          4 the records are those of the reference stream
+          5 the records are those of the neutral setting *)
+Definition amb_tie (r : aroute) (evs : list event) (ra0 ra1 dec0 dec1 : Q)
+           (weights redshifts : list Q) (ref_ras ref_decs : list Q) (ref_pairs : list (Q * Q)) : bool :=
+  nlist_eqb (aroute_sizes r) (after_last_reseed evs [])
+  && ((length ref_ras =? aroute_total r) && (length ref_decs =? aroute_total r)
+      && in_window ra0 ra1 ref_ras && in_window dec0 dec1 ref_decs
+      && joint_ok weights redshifts ref_pairs).
+Definition amb_size (r : aroute) (nout : nat) (ras decs : list Q) : bool :=
+  (nout =? aroute_total r) && ((length ras =? aroute_total r) && (length decs =? aroute_total r)).
+Definition amb_same (ras decs : list Q) (pairs : list (Q * Q))
+           (ref_ras ref_decs : list Q) (ref_pairs : list (Q * Q)) (bits_same : bool) : bool :=
+  bits_same && (list_eqb Qeqb ras ref_ras && (list_eqb Qeqb decs ref_decs && list_eqb qpair_eqb pairs ref_pairs)).
+
+Definition c16_ambient_case (r : aroute) (evs : list event) (nout : nat)
+           (ra0 ra1 dec0 dec1 : Q) (ras decs : list Q)
+           (weights redshifts : list Q) (pairs : list (Q * Q))
+           (ref_ras ref_decs : list Q) (ref_pairs : list (Q * Q))
+           (bits_same same_neutral : bool) : nat :=
+  code [ amb_tie r evs ra0 ra1 dec0 dec1 weights redshifts ref_ras ref_decs ref_pairs;
+         amb_size r nout ras decs;
+         in_window ra0 ra1 ras && in_window dec0 dec1 decs;
+         joint_ok weights redshifts pairs;
+         amb_same ras decs pairs ref_ras ref_decs ref_pairs bits_same;
+         same_neutral ].
